@@ -171,6 +171,67 @@ def build(run):
         return proved("exec(finite)", vcs=n, sample=f"{len(exps)} literal exponents: typed real only for real integers; comparisons of complex-valued powers rejected")
     run.add("complex-mode/powers-with-literal-exponents", literal_powers, kind="values")
 
+    # powers with SYMBOLIC exponents (a coefficient, its real part, its modulus, a constant): the preprocessing must come to a decision -- accept (only when base and
+    # exponent are provably real) or reject -- and not hang converting the exponent to a number.  Each case runs in a child process with a time limit (bounded).
+    def symbolic_powers():
+        import ufv.elements as E
+        S_ = ufl.FunctionSpace(tri, E.LagrangeElement(tri.ufl_cell(), 1))
+        f, g, v = ufl.Coefficient(S_), ufl.Coefficient(S_), ufl.TestFunction(S_)
+        c = ufl.Constant(tri)
+        dxm = ufl.Measure("dx", domain=tri)
+        cases = [("|f|**g < 1", lambda: ufl.conditional(ufl.lt(abs(f) ** g, 1), 1.0, 2.0), True), ("|f|**Re(g) < 1", lambda: ufl.conditional(ufl.lt(abs(f) ** ufl.real(g), 1), 1.0, 2.0), False),
+                 ("max(Re(f)**g, 0)", lambda: ufl.max_value(ufl.real(f) ** g, 0), True), ("min(2**c, 1)", lambda: ufl.min_value(2 ** c, 1), True),
+                 ("|f|**|g| < 1", lambda: ufl.conditional(ufl.lt(abs(f) ** abs(g), 1), 1.0, 2.0), False), ("f**g (no comparison)", lambda: f ** g, False),
+                 ("x**x < 1 (coordinates)", lambda: ufl.conditional(ufl.lt(ufl.SpatialCoordinate(tri)[0] ** ufl.SpatialCoordinate(tri)[1], 1), 1.0, 2.0), False)]
+        LIMIT = 100
+
+        def child(mk):
+            from ufl.algorithms import compute_form_data
+            try:
+                compute_form_data(mk() * ufl.conj(v) * dxm, complex_mode=True)
+                return "accepted"
+            except ComplexComparisonError:
+                return "rejected"
+            except BaseException as ex:  # noqa: BLE001
+                return f"raised {type(ex).__name__}: {ex}"[:200]
+        import os
+        import time
+        n = 0
+        for nm, mk, must_reject in cases:
+            rfd, wfd = os.pipe()
+            pid = os.fork()
+            if pid == 0:
+                try:
+                    os.close(rfd)
+                    os.write(wfd, child(mk).encode())
+                finally:
+                    os._exit(0)
+            os.close(wfd)
+            t0 = time.time()
+            done = False
+            while time.time() - t0 < LIMIT:
+                r_, _st = os.waitpid(pid, os.WNOHANG)
+                if r_ == pid:
+                    done = True
+                    break
+                time.sleep(0.05)
+            if not done:
+                os.kill(pid, 9)
+                os.waitpid(pid, 0)
+                os.close(rfd)
+                return violated(f"complex-mode preprocessing of an integrand with {nm} did not finish within {LIMIT} s: it neither accepts nor rejects the comparison "
+                                f"(the exponent is converted to a number by evaluating it, which does not end for a symbolic exponent)",
+                                replay={"integrand": nm, "time_limit_s": LIMIT}, reproduced=True, backend="exec(child process, time limit)")
+            out = os.read(rfd, 4096).decode() or "no answer"
+            os.close(rfd)
+            n += 1
+            if must_reject and out == "accepted":
+                return violated(f"complex mode accepts {nm}, whose power may be complex valued", replay={"integrand": nm}, reproduced=True, backend="exec")
+            if out.startswith("raised") and "Arity" not in out:
+                return violated(f"complex-mode preprocessing of {nm} crashed: {out}", replay={"integrand": nm, "outcome": out}, reproduced=True, backend="exec")
+        return bounded_ok(n, f"{len(cases)} integrands with symbolic exponents, each decided within {LIMIT} s in a child process", sample="a decision (accept / reject) is reached; possibly complex powers rejected")
+    run.add("complex-mode/powers-with-symbolic-exponents-are-decided", symbolic_powers, kind="bounded", budget=600)
+
     # terminals: which are typed real
     def terminals():
         import ufv.elements as E
